@@ -49,6 +49,8 @@ def split_ph(s):
 
 # ---------------------------------------------------------------- builtins
 def sx_str(x='', *a, **k):
+    if hasattr(x, 'sx_str'):
+        return x.sx_str()
     if isinstance(x, (SInt, SNum)):
         return placeholder(x)
     if isinstance(x, SBool):
@@ -209,7 +211,7 @@ def sx_isinstance(o, t):
     if t is builtins.bytearray:
         return isinstance(o, (builtins.bytearray, SBA))
     if t is builtins.int:
-        return isinstance(o, (builtins.int, SInt)) or (isinstance(o, SNum) and not o.is_real)
+        return isinstance(o, (builtins.int, SInt)) or (isinstance(o, SNum) and not o.is_real) or hasattr(o, 'sx_is_int')
     if t is builtins.float:
         return isinstance(o, builtins.float) or (isinstance(o, SNum) and o.is_real)
     if t is builtins.str and hasattr(o, 'sx_is_str'):
